@@ -154,12 +154,16 @@ static void run_C15(const Args &a, long cs) {
 	{ std::vector<std::vector<size_t>> bad; std::vector<size_t> b;
 	  b = perm; b.push_back(0); bad.push_back(b); b = perm; b.pop_back(); bad.push_back(b); bad.push_back({});
 	  if (nd >= 2) { b = perm; b[0] = b[1]; bad.push_back(b); } b = perm; b[r.below(nd)] = (size_t)nd; bad.push_back(b); b = perm; b[r.below(nd)] = (size_t)-1; bad.push_back(b); b = perm; b[r.below(nd)] = (size_t)nd + 1000000; bad.push_back(b);
+	  // out-of-range entries whose low 32 (or 16/8) bits would complete a valid permutation
+	  b = perm; b[r.below(nd)] += (size_t)1 << 32; bad.push_back(b); b = perm; b[r.below(nd)] += (size_t)7 << 32; bad.push_back(b); b = perm; for (auto &v : b) v += (size_t)1 << 32; bad.push_back(b);
+	  b = perm; b[r.below(nd)] += (size_t)1 << 16; bad.push_back(b); b = perm; b[r.below(nd)] += (size_t)1 << 8; bad.push_back(b); b = perm; b[r.below(nd)] += (size_t)1 << 63; bad.push_back(b);
 	  for (auto &bp : bad) { phase_log("malformed permutation"); bool threw = false; try { P.permuteDimensions(bp); } catch (std::exception &e) { threw = true; } count("malformed-arguments-tried");
 	    if (!threw) { viol("C15:permuteDimensions:malformed-argument-accepted", "{\"argument\":" + jarr(bp) + ",\"case\":" + pj + "}"); break; }
 	    bool same = P == T; for (int d = 0; same && d < nd; d++) if (!biteq(P.get_period(d), T.get_period(d)) || !biteq(P.lower_extent(d), T.lower_extent(d))) same = false; if (!same) { viol("C15:permuteDimensions:malformed-argument-changed-the-table", pj); break; } } }
 	// C wrapper
 	{ Table Q; load(Q, s); Table Q2; load(Q2, s); Q2.permuteDimensions(perm); splinetable h; h.data = &Q; std::vector<size_t> pc = perm; phase_log("C:splinetable_permute"); int rc = splinetable_permute(&h, pc.data()); if (rc != 0 || !(Q == Q2)) viol("C15:C:splinetable_permute:differs-from-C++", pj); for (int d = 0; d < nd; d++) if (!biteq(Q.get_period(d), Q2.get_period(d))) { viol("C15:C:splinetable_permute:differs-from-C++", pj); break; }
-	  if (nd >= 2) { std::vector<size_t> dup(nd, 0); rc = splinetable_permute(&h, dup.data()); if (rc == 0) viol("C15:C:splinetable_permute:malformed-argument-accepted", pj); } count("C-wrapper-comparisons"); }
+	  if (nd >= 2) { std::vector<size_t> dup(nd, 0); rc = splinetable_permute(&h, dup.data()); if (rc == 0) viol("C15:C:splinetable_permute:malformed-argument-accepted", pj); }
+	  { std::vector<size_t> wide = perm; wide[r.below(nd)] += (size_t)1 << 32; rc = splinetable_permute(&h, wide.data()); if (rc == 0) viol("C15:C:splinetable_permute:malformed-argument-accepted", pj); } count("C-wrapper-comparisons"); }
 	if (cs % 25 == 0) sample(pj);
 }
 
